@@ -24,6 +24,7 @@ thread_local! {
     static SOME: Cell<u64> = const { Cell::new(0) };
     static NONE: Cell<u64> = const { Cell::new(0) };
     static BOXED_FAIL: Cell<u64> = const { Cell::new(0) };
+    static HUGE: Cell<u64> = const { Cell::new(0) };
 }
 fn bump(c: &'static std::thread::LocalKey<Cell<u64>>) {
     c.with(|c| c.set(c.get() + 1));
@@ -359,11 +360,143 @@ fn judge<F: PartialEq + std::fmt::Debug>(rep: &mut Report, op: &str, la: usize, 
     }
 }
 
+// ------------------------------------------------------------------ huge slices (64-bit hosts)
+/// View conversions over an i8 buffer of 2^32 + d samples: the length does not fit 32 bits, so a
+/// divisibility test or a frame count computed in a narrower type goes wrong exactly here. The
+/// buffer comes from calloc (only the pages holding the markers are touched).
+fn huge_views_n<const N: usize>(buf: &mut Vec<i8>, rep: &mut Report)
+where
+    [i8; N]: Frame<Sample = i8>,
+    for<'a> &'a [i8]: ToFrameSlice<'a, [i8; N]>,
+    for<'a> &'a [[i8; N]]: ToSampleSlice<'a, i8>,
+    for<'a> &'a mut [i8]: ToFrameSliceMut<'a, [i8; N]>,
+    Box<[i8]>: ToBoxedFrameSlice<[i8; N]>,
+    Box<[[i8; N]]>: ToBoxedSampleSlice<i8>,
+{
+    let l = buf.len();
+    let divisible = l % N == 0;
+    let cs = || case("i8", N, l, "huge");
+    let (p0, last) = (buf.as_ptr() as usize, buf[l - 1]);
+    bump(&EVALS);
+    // shared
+    match dasp_slice::to_frame_slice::<&[i8], [i8; N]>(&buf[..]) {
+        Some(fr) if divisible => {
+            if fr.len() != l / N || fr.as_ptr() as usize != p0 {
+                rep.violation("view|huge|shared|wrong_length_or_pointer", format!("N {} L {}: {} frames at {:#x}, expected {} at {:#x}", N, l, fr.len(), fr.as_ptr() as usize, l / N, p0), cs());
+                return;
+            }
+            if fr[l / N - 1][N - 1] != last || fr[0][0] != buf[0] {
+                rep.violation("view|huge|shared|wrong_content", format!("N {} L {}: last frame last channel {}, last sample {}", N, l, fr[l / N - 1][N - 1], last), cs());
+                return;
+            }
+            let back = dasp_slice::to_sample_slice(fr);
+            if back.len() != l || back.as_ptr() as usize != p0 {
+                rep.violation("view|huge|shared|roundtrip", format!("N {} L {}: back to {} samples", N, l, back.len()), cs());
+                return;
+            }
+            bump(&SOME);
+        }
+        None if !divisible => bump(&NONE),
+        Some(fr) => {
+            rep.violation("view|huge|shared|some_for_indivisible_length", format!("N {} does not divide L {} but to_frame_slice returned {} frames", N, l, fr.len()), cs());
+            return;
+        }
+        None => {
+            rep.violation("view|huge|shared|none_for_divisible_length", format!("N {} divides L {} but to_frame_slice returned None", N, l), cs());
+            return;
+        }
+    }
+    // mutable
+    match dasp_slice::to_frame_slice_mut::<&mut [i8], [i8; N]>(&mut buf[..]) {
+        Some(fr) if divisible => {
+            if fr.len() != l / N || fr.as_ptr() as usize != p0 {
+                rep.violation("view|huge|mutable|wrong_length_or_pointer", format!("N {} L {}: {} frames, expected {}", N, l, fr.len(), l / N), cs());
+                return;
+            }
+            let nf = fr.len();
+            fr[nf - 1][N - 1] = fr[nf - 1][N - 1].wrapping_add(1);
+            if buf[l - 1] != last.wrapping_add(1) {
+                rep.violation("view|huge|mutable|write_not_visible", format!("N {} L {}: write through the last frame did not reach sample L-1", N, l), cs());
+                return;
+            }
+            buf[l - 1] = last;
+            bump(&SOME);
+        }
+        None if !divisible => bump(&NONE),
+        other => {
+            rep.violation("view|huge|mutable|wrong_option", format!("N {} L {} (divisible: {}): to_frame_slice_mut returned {}", N, l, divisible, if other.is_some() { "Some" } else { "None" }), cs());
+            return;
+        }
+    }
+    // boxed (the box is consumed; a fresh calloc'd one per attempt)
+    let mut bx: Box<[i8]> = vec![0i8; l].into_boxed_slice();
+    bx[l - 1] = 77;
+    let bp = bx.as_ptr() as usize;
+    match dasp_slice::to_boxed_frame_slice::<Box<[i8]>, [i8; N]>(bx) {
+        Some(fr) if divisible => {
+            if fr.len() != l / N || fr.as_ptr() as usize != bp || fr[l / N - 1][N - 1] != 77 {
+                rep.violation("view|huge|boxed|wrong_length_pointer_or_content", format!("N {} L {}: {} frames, expected {}", N, l, fr.len(), l / N), cs());
+                return;
+            }
+            let back: Box<[i8]> = dasp_slice::to_boxed_sample_slice(fr);
+            if back.len() != l || back.as_ptr() as usize != bp || back[l - 1] != 77 {
+                rep.violation("view|huge|boxed|roundtrip", format!("N {} L {}: back to {} samples", N, l, back.len()), cs());
+                return;
+            }
+            bump(&SOME);
+        }
+        None if !divisible => {
+            bump(&NONE);
+            bump(&BOXED_FAIL);
+        }
+        other => {
+            rep.violation("view|huge|boxed|wrong_option", format!("N {} L {} (divisible: {}): to_boxed_frame_slice returned {}", N, l, divisible, if other.is_some() { "Some" } else { "None" }), cs());
+            return;
+        }
+    }
+    HUGE.with(|c| c.set(c.get() + 1));
+}
+
+fn huge_views(rep: &mut Report, lens: &[usize]) {
+    for &l in lens {
+        let r = vmon::catch(std::panic::AssertUnwindSafe(|| {
+            let mut buf = vec![0i8; l];
+            buf[0] = 11;
+            buf[l - 1] = 22;
+            buf[l - 2] = 33;
+            macro_rules! w {
+                ($n:literal) => {
+                    huge_views_n::<$n>(&mut buf, rep);
+                };
+            }
+            // a selection of widths (each instantiation is compiled three times over)
+            w!(1);
+            w!(2);
+            w!(3);
+            w!(5);
+            w!(6);
+            w!(7);
+            w!(12);
+            w!(24);
+            w!(31);
+            w!(32);
+        }));
+        if let Err(m) = r {
+            rep.violation("view|huge|panic", format!("L {}: panicked: {}", l, m), case("i8", 0, l, "huge"));
+        }
+        rep.nontrivial(vmon::hash_combine(0x4876, l as u64));
+    }
+}
+
 fn flush(rep: &mut Report) {
     rep.eval(EVALS.with(|c| c.replace(0)));
     rep.hit_n("views_some", SOME.with(|c| c.replace(0)));
     rep.hit_n("views_none", NONE.with(|c| c.replace(0)));
     rep.hit_n("boxed_failed_conversions", BOXED_FAIL.with(|c| c.replace(0)));
+    let h = HUGE.with(|c| c.replace(0));
+    if h > 0 {
+        rep.hit_n("huge_slice_views", h);
+    }
 }
 
 /// run the view checks for format S over a set of widths and a length range
@@ -416,6 +549,8 @@ fn main() {
         let m = vmon::cli::parse_case(cs);
         if m["what"] == "inplace" {
             check_inplace(&mut rep);
+        } else if m["mode"] == "huge" {
+            huge_views(&mut rep, &[m["l"].parse().unwrap()]);
         } else {
             let n: usize = m["n"].parse().unwrap();
             let l: usize = m["l"].parse().unwrap();
@@ -442,7 +577,7 @@ fn main() {
     rep.oblige("views_none", 1);
     rep.oblige("boxed_failed_conversions", 1);
     match cli.stage.as_str() {
-        "main" => {
+        "main" | "release" => {
             let k = cli.t(3usize, 8usize);
             let extra = cli.t(2usize, 5usize);
             views_for!(i8, &mut rep, |n: usize| k * n + extra, |_n: usize| true, false);
@@ -459,6 +594,17 @@ fn main() {
                     check_views::<I24, 7>(l, &mut rep);
                     check_views::<u64, 32>(l, &mut rep);
                 }
+            }
+            if usize::BITS >= 64 {
+                // lengths of 2^32 + d (every residue for the widths up to 32), 2^33 + d in thorough
+                rep.oblige("huge_slice_views", 1);
+                let mut lens: Vec<usize> = (0..cli.t(7usize, 33usize)).map(|d| (1usize << 32) + d).collect();
+                lens.push((1usize << 32) - 1);
+                if cli.thorough() {
+                    lens.extend((0..8).map(|d| (1usize << 33) + d));
+                    lens.push((1usize << 32) + (1 << 31) + 5);
+                }
+                huge_views(&mut rep, &lens);
             }
             rep.oblige("length_mismatch_refused_untouched", 1);
             check_inplace(&mut rep);
